@@ -140,32 +140,36 @@ func VerifTokenRef() {
 			vReach("identifier")
 		}
 	case refDec(c) || c == '.' && refDec(vnAt(b, 1)):
+		// a run of digits with numeric separators: D (_? D)* - a '_' belongs to the literal only
+		// between two digits of the run's radix
+		run := func(j int, ok func(byte) bool) int {
+			for j < n && ok(b[j]) {
+				j++
+				if vnAt(b, j) == '_' && ok(vnAt(b, j+1)) {
+					j++
+				}
+			}
+			return j
+		}
+		isBin := func(c byte) bool { return c == '0' || c == '1' }
+		isOct := func(c byte) bool { return c >= '0' && c <= '7' }
 		// decimal literals without separators / legacy octal; 0x 0b 0o prefixed integers; BigInt suffix
 		j := 0
 		kind := IntegerToken
 		if c == '0' && (vnAt(b, 1) == 'x' || vnAt(b, 1) == 'X') && refHexD(vnAt(b, 2)) {
-			j = 2
-			for j < n && refHexD(b[j]) {
-				j++
-			}
+			j = run(2, refHexD)
 			kind = HexadecimalToken
 			if vnAt(b, j) == 'n' {
 				j++
 			}
 		} else if c == '0' && (vnAt(b, 1) == 'b' || vnAt(b, 1) == 'B') && (vnAt(b, 2) == '0' || vnAt(b, 2) == '1') {
-			j = 2
-			for j < n && (b[j] == '0' || b[j] == '1') {
-				j++
-			}
+			j = run(2, isBin)
 			kind = BinaryToken
 			if vnAt(b, j) == 'n' {
 				j++
 			}
 		} else if c == '0' && (vnAt(b, 1) == 'o' || vnAt(b, 1) == 'O') && vnAt(b, 2) >= '0' && vnAt(b, 2) <= '7' {
-			j = 2
-			for j < n && b[j] >= '0' && b[j] <= '7' {
-				j++
-			}
+			j = run(2, isOct)
 			kind = OctalToken
 			if vnAt(b, j) == 'n' {
 				j++
@@ -174,18 +178,17 @@ func VerifTokenRef() {
 			if c == '0' && refDec(vnAt(b, 1)) {
 				return // legacy octal: rejected by the lexer on purpose
 			}
-			for j < n && refDec(b[j]) {
-				j++
+			if c == '0' {
+				j = 1 // a leading zero stands alone (no separator after it)
+			} else {
+				j = run(0, refDec)
 			}
 			if vnAt(b, j) == 'n' && j > 0 {
 				j++
 			} else {
 				if vnAt(b, j) == '.' {
 					kind = DecimalToken
-					j++
-					for j < n && refDec(b[j]) {
-						j++
-					}
+					j = run(j+1, refDec)
 				}
 				if vnAt(b, j) == 'e' || vnAt(b, j) == 'E' {
 					k := j + 1
@@ -195,16 +198,10 @@ func VerifTokenRef() {
 					if !refDec(vnAt(b, k)) {
 						return // malformed exponent: an error in both
 					}
-					for k < n && refDec(b[k]) {
-						k++
-					}
-					j = k
+					j = run(k, refDec)
 					kind = DecimalToken
 				}
 			}
-		}
-		if vnAt(b, j) == '_' {
-			return // numeric separators: not modelled by the reference
 		}
 		vAssert(tt == kind && len(d) == j, "numeric-literal")
 		vReach("numeric")
